@@ -29,6 +29,7 @@ import (
 	"github.com/bufbuild/buf/private/pkg/storage/storagemem"
 	"github.com/bufbuild/buf/private/pkg/storage/storageos"
 	"github.com/bufbuild/bufverif/internal/evid"
+	"github.com/bufbuild/bufverif/internal/hook"
 	"google.golang.org/protobuf/proto"
 	"google.golang.org/protobuf/types/pluginpb"
 )
@@ -327,6 +328,17 @@ func shapes() []shape {
 		memViewShape("filter(map(mem,root),not ext)", "root", func(p storage.ReadWriteBucket) (storage.ReadBucket, storage.WriteBucket) {
 			return storage.FilterReadBucket(storage.MapReadBucket(p, storage.MapOnPrefix("root")), storage.MatchNot(storage.MatchPathExt(".proto"))), nil
 		}),
+		memViewShape("filter(mem,not equal sentinels)", "root", func(p storage.ReadWriteBucket) (storage.ReadBucket, storage.WriteBucket) {
+			// the view is the parent namespace minus three objects excluded by exact path; they hold the sentinel data
+			return storage.FilterReadBucket(p, storage.MatchNot(storage.MatchOr(storage.MatchPathEqual("sentinel.txt"), storage.MatchPathEqual("rootx/s.txt"), storage.MatchPathEqual("a")))), nil
+		}),
+		memViewShape("filter(mem,and(not equal a,not contained rootx,not equal sentinel))", "root", func(p storage.ReadWriteBucket) (storage.ReadBucket, storage.WriteBucket) {
+			return storage.FilterReadBucket(p, storage.MatchAnd(storage.MatchNot(storage.MatchPathEqual("a")), storage.MatchNot(storage.MatchPathContained("rootx")), storage.MatchNot(storage.MatchPathEqual("sentinel.txt")))), nil
+		}),
+		diskShape("filter(os-parent,not equal a)", false, "root", func(b storage.ReadWriteBucket) (storage.ReadBucket, storage.WriteBucket) {
+			// disk bucket rooted at "root": exclude root/a by exact path; its content is checked not to be served
+			return storage.FilterReadBucket(b, storage.MatchNot(storage.MatchPathEqual("a"))), nil
+		}),
 		memViewShape("multi(map(mem,root/in),map(mem,root/sub))", "root", func(p storage.ReadWriteBucket) (storage.ReadBucket, storage.WriteBucket) {
 			return storage.MultiReadBucket(storage.MapReadBucket(p, storage.MapOnPrefix("root/in")), storage.MapReadBucket(p, storage.MapOnPrefix("root/sub"))), nil
 		}),
@@ -338,6 +350,9 @@ func shapes() []shape {
 		}),
 	}
 }
+
+// objectOps take the name of one object (not a prefix).
+var objectOps = map[string]bool{"Get": true, "Stat": true, "Put": true, "PutAtomic": true, "Delete": true, "CopyPathTo": true}
 
 var opNames = []string{"Get", "Stat", "Walk", "Put", "PutAtomic", "Delete", "DeleteAll", "CopyPathTo", "CopyInto"}
 
@@ -478,11 +493,23 @@ func run(r *evid.Run) {
 				if (ref.Escapes || ref.Absolute) && err == nil {
 					r.Violate("accepted/"+it.sh.name+"/"+op+"/"+normalForm(p), fmt.Sprintf("%s.%s(%q) succeeded although the name %s; such names must be rejected with an error", it.sh.name, op, p, why(ref)), c)
 				}
+				if objectOps[op] && !ref.Escapes && !ref.Absolute && ref.Normal == "." && err == nil {
+					// a spelling of the root is not an object name: creating or deleting "the root" acts on the parent
+					r.Violate("accepted-root-as-object/"+it.sh.name+"/"+op, fmt.Sprintf("%s.%s(%q) succeeded although the name denotes the bucket root itself", it.sh.name, op, p), c)
+				}
 				if mutating {
 					if d := fx.outside(); d != "" {
 						r.Violate("escaped/"+it.sh.name+"/"+op+"/"+normalForm(p), fmt.Sprintf("%s.%s(%q): %s", it.sh.name, op, p, d), c)
 						fx.restore()
 					} else if err == nil {
+						if fx.rb != nil {
+							_ = fx.rb.Walk(ctx, "", func(info storage.ObjectInfo) error {
+								if lr := Resolve(info.Path()); lr.Escapes || lr.Absolute || lr.Normal == "." || lr.Normal != info.Path() {
+									r.Violate("listed-invalid-name/"+it.sh.name+"/"+op, fmt.Sprintf("after %s.%s(%q) the bucket lists an object named %q, which is not a normalized name inside the root", it.sh.name, op, p, info.Path()), c)
+								}
+								return nil
+							})
+						}
 						fx.restore()
 					}
 				}
@@ -492,6 +519,144 @@ func run(r *evid.Run) {
 
 	archives(r, paths, scratch)
 	pluginNames(r, paths)
+	constructors(r, paths)
+	rootSpellings(r, paths, scratch)
+}
+
+// constructors: buckets built from a path->data map must reject every escaping, absolute or root name.
+func constructors(r *evid.Run, paths []string) {
+	for _, p := range paths {
+		ref := Resolve(p)
+		var err error
+		var listed []string
+		func() {
+			defer func() {
+				if rec := recover(); rec != nil {
+					err = fmt.Errorf("PANIC: %v", rec)
+				}
+			}()
+			var b storage.ReadBucket
+			b, err = storagemem.NewReadBucket(map[string][]byte{p: []byte("x"), "inside.proto": []byte("y")})
+			if err == nil {
+				_ = b.Walk(context.Background(), "", func(info storage.ObjectInfo) error {
+					listed = append(listed, info.Path())
+					return nil
+				})
+			}
+		}()
+		r.Eval(1)
+		c := caseT{"storagemem.NewReadBucket", "construct", p}
+		if strings.Contains(p, "..") || ref.Absolute {
+			r.Distinct("construct|" + p)
+		}
+		if err != nil && strings.HasPrefix(err.Error(), "PANIC") {
+			r.Violate("panic/constructor", fmt.Sprintf("NewReadBucket with key %q panicked: %v", p, err), c)
+			continue
+		}
+		if (ref.Escapes || ref.Absolute || ref.Normal == ".") && err == nil {
+			r.Violate("accepted/storagemem.NewReadBucket/"+normalFormOrRoot(p), fmt.Sprintf("storagemem.NewReadBucket accepted the key %q (%s); the bucket lists %v", p, whyOrRoot(ref), listed), c)
+		}
+		for _, l := range listed {
+			if lr := Resolve(l); lr.Escapes || lr.Absolute || lr.Normal == "." {
+				r.Violate("listed-invalid-name/storagemem.NewReadBucket", fmt.Sprintf("a bucket built with key %q lists the object name %q", p, l), c)
+			}
+		}
+	}
+}
+
+func whyOrRoot(ref RefPath) string {
+	if !ref.Escapes && !ref.Absolute {
+		return "denotes the root itself"
+	}
+	return why(ref)
+}
+
+func normalFormOrRoot(p string) string {
+	if ref := Resolve(p); !ref.Escapes && !ref.Absolute && ref.Normal == "." {
+		return "<root>"
+	}
+	return normalForm(p)
+}
+
+// rootSpellings: names that denote the bucket root itself, on the disk bucket, in two situations the main loop
+// does not produce: an EMPTY root directory (removing "the object" would remove the root from its parent) and
+// the instant between the creation of an atomic put's staging file and its close (the staging file of "the
+// root" would live in the parent directory). Serial, because the hook callback is process-wide.
+func rootSpellings(r *evid.Run, paths []string, scratch string) {
+	ctx := context.Background()
+	hook.Install()
+	defer hook.SetOnPoint(nil)
+	n := 0
+	for _, symlinks := range []bool{false, true} {
+		for _, p := range paths {
+			ref := Resolve(p)
+			if ref.Escapes || ref.Absolute || ref.Normal != "." {
+				continue
+			}
+			outer := filepath.Join(scratch, fmt.Sprintf("rs%d", n))
+			n++
+			root := filepath.Join(outer, "root")
+			_ = os.MkdirAll(root, 0o755)
+			_ = os.WriteFile(filepath.Join(outer, "sentinel.txt"), []byte(sentinelMark), 0o644)
+			var po []storageos.ProviderOption
+			var bo []storageos.ReadWriteBucketOption
+			if symlinks {
+				po = append(po, storageos.ProviderWithSymlinks())
+				bo = append(bo, storageos.ReadWriteBucketWithSymlinksIfSupported())
+			}
+			b, err := storageos.NewProvider(po...).NewReadWriteBucket(root, bo...)
+			if err != nil {
+				r.Incomplete(err.Error())
+				return
+			}
+			outsideNow := func() string {
+				entries, _ := os.ReadDir(outer)
+				for _, e := range entries {
+					if e.Name() != "root" && e.Name() != "sentinel.txt" {
+						return "new entry " + e.Name() + " next to the root"
+					}
+				}
+				if _, err := os.Stat(root); err != nil {
+					return "the root directory was removed from its parent"
+				}
+				return ""
+			}
+			name := "os"
+			if symlinks {
+				name = "os+symlinks"
+			}
+			for _, op := range []string{"Delete", "DeleteAll-then-Delete", "PutAtomic", "Put"} {
+				c := caseT{name + "(empty root)", op, p}
+				r.Eval(1)
+				r.Distinct("rootspelling|" + name + "|" + op + "|" + p)
+				hook.SetOnPoint(func(label string) error {
+					if d := outsideNow(); d != "" {
+						r.Violate("escaped/"+name+"(empty root)/"+op+"/during", fmt.Sprintf("%s.%s(%q) at %s: %s", name, op, p, label, d), c)
+					}
+					return nil
+				})
+				var err error
+				switch op {
+				case "Delete", "DeleteAll-then-Delete":
+					err = b.Delete(ctx, p)
+				case "PutAtomic":
+					err = storage.PutPath(ctx, b, p, []byte("x"), storage.PutWithAtomic())
+				case "Put":
+					err = storage.PutPath(ctx, b, p, []byte("x"))
+				}
+				hook.SetOnPoint(nil)
+				if d := outsideNow(); d != "" {
+					r.Violate("escaped/"+name+"(empty root)/"+op, fmt.Sprintf("%s.%s(%q) on an empty root: %s", name, op, p, d), c)
+					_ = os.MkdirAll(root, 0o755)
+				}
+				if err == nil {
+					r.Violate("accepted-root-as-object/"+name+"(empty root)/"+op, fmt.Sprintf("%s.%s(%q) succeeded although the name denotes the bucket root itself", name, op, p), c)
+				}
+			}
+			os.RemoveAll(outer)
+		}
+	}
+	r.Set("root_spelling_cases", n)
 }
 
 func why(ref RefPath) string {
